@@ -210,6 +210,7 @@ func execC13(t *testing.T, w *core.World, p *run.Plan, r *run.Result) {
 	var cfg []config.LiteServer
 	for i := 0; i < ns; i++ {
 		s := litesrv.New(w, serverKeyFromSeed(p.Seed, i), sch, i, head0)
+		s.MinSeqno = head0 - 50
 		rtt := p.Get(fmt.Sprintf("s%d_rtt_us", i), 1000)
 		s.Beh = litesrv.Behaviour{PongDelayUs: rtt / 2, StaleInfoPermille: p.Get("stale_pm", 0), HoldInfoAfter: 1, HoldInfoMs: p.Get("hold_info_ms", 0)}
 		h := w.Net.AddHost(fmt.Sprintf("sim:%d", i), s)
